@@ -19,13 +19,15 @@ def greet(a):
     name = 'bob'
     items = [1, 2, 3]
     person = Person()
+    query = "LIKE 'a%s' %d"
     return a  # TP:greet
 '''
 
-TEXT = {'lit_a': 'a', 'lit_space': ' ', 'lit_unicode': 'é中', 'lbrace2': '{{', 'rbrace2': '}}',
+TEXT = {'lit_a': 'a', 'lit_space': ' ', 'lit_unicode': 'é中', 'lit_percent': '9% %s %d', 'lbrace2': '{{', 'rbrace2': '}}',
+        'f_percent': '{query}',
         'f_local': '{name}', 'f_attr': '{person.name}', 'f_index': '{items[1]}', 'f_call': '{len(items)}',
         'f_missing': '{nope}', 'f_raises': '{a // 0}'}
-VALUE = {'f_local': 'bob', 'f_attr': 'alice', 'f_index': '2', 'f_call': '3'}
+VALUE = {'f_local': 'bob', 'f_attr': 'alice', 'f_index': '2', 'f_call': '3', 'f_percent': "LIKE 'a%s' %d"}
 ERR_HINT = {'f_missing': 'nope', 'f_raises': 'zero'}
 EXPR = {k: v[1:-1] for k, v in TEXT.items() if k.startswith('f_')}
 UUID = re.compile(r'^[0-9a-f]{8}-[0-9a-f]{4}-[0-9a-f]{4}-[0-9a-f]{4}-[0-9a-f]{12}$')
@@ -35,7 +37,7 @@ def render(tokens):
     """Independent renderer: (list of exact pieces or error markers)."""
     out = []
     for t in tokens:
-        if t in ('lit_a', 'lit_space', 'lit_unicode'):
+        if t in ('lit_a', 'lit_space', 'lit_unicode', 'lit_percent'):
             out.append(('text', TEXT[t]))
         elif t == 'lbrace2':
             out.append(('text', '{'))
@@ -62,6 +64,53 @@ def match_message(msg, tokens):
     if not re.match('^' + pat + '$', msg[len('[deep] '):], re.S):
         return 'message %r does not render template %r' % (msg, ''.join(TEXT[t] for t in tokens))
     return None
+
+
+def run_default_logger(host, tokens):
+    """The tracepoint logger shipped with the agent (PythonPlugin -> the 'deep' logger): one record per hit whose text is
+    the message followed by the context id and the tracepoint id, each in its own place."""
+    import logging as pylog
+    from deep.api.plugin.python import PythonPlugin
+    mod, path, marks = host
+    base = path.rsplit('/', 1)[-1]
+    got = []
+
+    class Capture(pylog.Handler):
+        def emit(self, record):
+            try:
+                got.append(('ok', record.getMessage()))
+            except Exception as ex:          # what logging itself does with such a record: it is lost
+                got.append(('lost', repr(ex)))
+    lg = pylog.getLogger('deep')
+    h = Capture(level=pylog.INFO)
+    old_level = lg.level
+    lg.addHandler(h)
+    lg.setLevel(pylog.INFO)
+    rg = R.Rig(plugins=[PythonPlugin()])
+    template = ''.join(TEXT[t] for t in tokens)
+    try:
+        rg.install([{'id': 'tp-log', 'path': base, 'line': marks['greet'], 'args': {'log_msg': template}}])
+        res = rg.run(mod.greet, 9, only_file=path)
+        if res != ('ok', 9) or rg.escaped:
+            return ['host changed / handler raised: %r %r' % (res, rg.escaped)]
+        snaps = rg.snapshots()
+        if len(snaps) != 1:
+            return ['%d snapshots' % len(snaps)]
+        msgs = [g for g in got if g[0] == 'lost' or g[1].startswith('[deep] ')]
+        if len(msgs) != 1 or msgs[0][0] != 'ok':
+            return ['the default tracepoint logger emitted %s for one permitted hit' % (msgs,)]
+        want = '%s ctx=%s tracepoint=%s' % (snaps[0].log_msg, snaps[0].attributes.get('context'), 'tp-log')
+        problems = []
+        if msgs[0][1] != want:
+            problems.append('the default tracepoint logger emitted %r, expected %r' % (msgs[0][1], want))
+        m = match_message(snaps[0].log_msg, tokens)
+        if m:
+            problems.append(m)
+        return problems
+    finally:
+        rg.close()
+        lg.removeHandler(h)
+        lg.setLevel(old_level)
 
 
 def run_template(host, tokens, with_snapshot):
@@ -192,14 +241,20 @@ def run(c):
         toks = sorted(TEXT)
         for n in range(0, 4):
             templates += [list(t) for t in itertools.product(toks, repeat=n)]
-        rng.shuffle(templates)
-        templates = templates[:6000]
-    for _ in range(40 if quick else 600):
+        four = [list(t) for t in itertools.product(toks, repeat=4)]       # and a third of the 4-token templates
+        rng.shuffle(four)
+        templates += four[:10000]
+    for _ in range(40 if quick else 2000):
         templates.append([rng.choice(sorted(TEXT)) for _ in range(rng.randint(5, 30))])
     shown = 0
     for tokens in templates:
-        for with_snapshot in (False, True):
-            problems = run_template(host, tokens, with_snapshot)
+        for with_snapshot in (False, True, 'default-logger'):
+            if with_snapshot == 'default-logger':
+                if not (set(tokens) & {'lit_percent', 'f_percent', 'lbrace2'}) and len(tokens) > 2:
+                    continue
+                problems = run_default_logger(host, tokens)
+            else:
+                problems = run_template(host, tokens, with_snapshot)
             c.traces_validated += 1
             c.note_case(key=('template', tuple(tokens), with_snapshot), nontrivial=any(t.startswith('f_') for t in tokens))
             if problems:
@@ -207,7 +262,7 @@ def run(c):
                                       'template': ''.join(TEXT[t] for t in tokens), 'with_snapshot': with_snapshot,
                                       'problems': problems})
                 if c.violation('template %r (%s): %s' % (''.join(TEXT[t] for t in tokens),
-                                                          'snapshot+log' if with_snapshot else 'log only', problems[:2]),
+                                                          {False: 'log only', True: 'snapshot+log'}.get(with_snapshot, with_snapshot), problems[:2]),
                                path):
                     shown += 1
             if shown >= 8:
